@@ -6,7 +6,7 @@ import itertools
 from ..canon import cdump
 from ..families import as_named, enum_closed, make_scfg, shards
 from ..hier import Hier
-from ..kernel import bfs, shard_map
+from ..kernel import guarded, bfs, shard_map
 from ..runner import Acc
 from ..sweep import exc_fingerprint, graph_case, rotate, unit_graphs, units_for
 from ..walk import product
@@ -164,7 +164,7 @@ def run_history(g, payload, hist, rename, acc, fam):
                 break
             nblocks = len(Hier(scfg).flat)
             try:
-                getattr(scfg, STAGES[gap])()
+                guarded(getattr(scfg, STAGES[gap]))
             except Exception as e:  # noqa: BLE001
                 et, site = exc_fingerprint(e)
                 if hist or rename:
